@@ -189,3 +189,15 @@ Example C04_rocc_nonvacuous :
   lower_rocc_setup ri T (Some 7%nat) [(3%nat, 30%nat)] = Some [CInsn 10 (VRef 22%nat) (VRef 30%nat)].
 Proof. vm_compute. reflexivity. Qed.
 Print Assumptions C04_rocc_nonvacuous.
+
+(* non-vacuity of the hypothesis of C04_rocc_pairs_current (added by the audit): for the table of the example
+   above there is a machine state with distinct, non-zero register contents in which the inferred input state 7
+   is sound, and one in which it is not (the hypothesis is neither trivially true nor unsatisfiable) *)
+Example C04_rocc_holds_nonvacuous :
+  let T : tbl := [(7%nat, [(0, 20); (1, 21); (2, 22); (3, 23)]%nat)] in
+  let e : envT := fun v => Z.of_nat v * 3 + 1 in
+  let good : mstate := mkSt e (fun _ f => e (20 + f)%nat) (fun _ => []) 0%nat [] in
+  let bad : mstate := mkSt e (fun _ f => if Nat.eqb f 2 then 0 else e (20 + f)%nat) (fun _ => []) 0%nat [] in
+  holds (tlook T) good 0%nat 7%nat = true /\ holds (tlook T) bad 0%nat 7%nat = false.
+Proof. split; vm_compute; reflexivity. Qed.
+Print Assumptions C04_rocc_holds_nonvacuous.
